@@ -55,7 +55,7 @@ def check(run):
             cls = run.rng.choice(["one", "one", "empty", "multi", "unicode"])
             c2 = copy.deepcopy(c)
             c2["id"] = "%s_k%d" % (c["id"], k)
-            c2["fault"] = {"at": k, "cls": cls}
+            c2["fault"] = {"at": k, "cls": cls, "again": run.rng.random() < 0.5}
             c2["sched"] = projgen.gen_sched(run.rng)
             cases.append(c2)
             run.count("fault:" + cls)
